@@ -148,8 +148,19 @@ def replay_cvm(ctx, metrics, c, k):
     if abs(st2 - st) > 1e-12 or not (0 <= pv <= 1) or abs(pv2 - pv) > 1e-12:
         ctx.violation("cvm:order-or-pvalue", "stat %r/%r p %r/%r" % (st, st2, pv, pv2), case)
     s0 = s.copy()
-    a1, p1 = metrics.anderson_darling_test(s)
-    a2, p2 = metrics.anderson_darling_test(np.sort(s)[::-1].copy())
+    try:
+        a1, p1 = metrics.anderson_darling_test(s)
+        a2, p2 = metrics.anderson_darling_test(np.sort(s)[::-1].copy())
+        # the same sample in other orders: sorted with the smallest value moved to the end, rotated by one
+        srt = np.sort(s)
+        for other in (np.append(srt[1:], srt[:1]), np.roll(s, 1), srt.copy()):
+            a3, p3 = metrics.anderson_darling_test(other)
+            if abs(a3 - a1) > 1e-12 * max(1, abs(a1)) or abs(p3 - p1) > 1e-12:
+                ctx.violation("ad:order-or-pvalue", "stat %r/%r p %r/%r for two orders of the same sample" % (a1, a3, p1, p3), case)
+                return
+    except Exception as e:
+        ctx.violation("ad:spurious-rejection", "%r for a sample inside [0, 1]" % e, case)
+        return
     if not np.array_equal(s, s0):
         ctx.violation("ad:argument-modified", "sample sorted in place", case)
     if not (0 <= p1 <= 1) or abs(a1 - a2) > 1e-12 * max(1, abs(a1)) or abs(p1 - p2) > 1e-12:
